@@ -81,15 +81,17 @@ type c14Frame struct {
 }
 
 type c14Hist struct {
-	Frames            []c14Frame
-	Ops               []string
-	ICC, EXIF, XMP    []byte
-	Loop              int
-	LoopSet           bool
-	BG                uint32
-	BGSet             bool
-	CanvasW, CanvasH  int
-	CanvasMode        string // absent, exact, larger, smaller
+	Frames           []c14Frame
+	Ops              []string
+	ICC, EXIF, XMP   []byte
+	Loop             int
+	LoopSet          bool
+	BG               uint32
+	BGSet            bool
+	CanvasW, CanvasH int
+	CanvasMode       string // absent, exact, larger, smaller
+	UnknownID        mux.ChunkID // a chunk AddChunk accepted under an id other than ICCP/EXIF/XMP
+	Unknown          []byte
 }
 
 func runC14(c *ev.Ctx) {
@@ -109,6 +111,46 @@ func runC14(c *ev.Ctx) {
 		cases = append(cases, ev.Case{Idx: i, Desc: "history"})
 	}
 	c.RunCases(cases, 0, func(cs ev.Case) { c14One(c, cs, pool, lwOK) })
+	if c.Only < 0 {
+		c14Cap(c, n, pool)
+	}
+}
+
+// c14Cap: metadata at and just above the 100 MiB limit that AddChunk documents, given through the setters (which
+// cannot return an error): whatever Assemble writes must demux back; refusing is fine, a file the demuxer refuses is not.
+func c14Cap(c *ev.Ctx, idx int, pool []c14Payload) {
+	const lim = 100 * 1024 * 1024
+	for k, n := range []int{lim, lim + 1} {
+		cs := ev.Case{Idx: idx + k, Desc: fmt.Sprintf("SetEXIF(%d bytes) + AddFrame + Assemble", n)}
+		blob := make([]byte, n)
+		for i := 0; i < n; i += 4093 {
+			blob[i] = byte(i >> 7)
+		}
+		m := mux.NewMuxer()
+		m.SetEXIF(blob)
+		if err := m.AddFrame(pool[0].Prefixed, nil); err != nil {
+			c.Fatal("cap case: AddFrame: %v", err)
+			return
+		}
+		var buf bytes.Buffer
+		err := m.Assemble(&buf)
+		c.Eval(1)
+		c.Distinct(fmt.Sprintf("cap|%d", n))
+		if err != nil {
+			if n == lim {
+				c.Violate(cs, "valid-history-rejected", map[string]string{"cap": "1"}, "metadata of exactly the documented limit refused: "+err.Error(), nil)
+			}
+			continue
+		}
+		dm, derr := mux.NewDemuxer(buf.Bytes())
+		if derr != nil {
+			c.Violate(cs, "demuxer-rejects-muxer-output", map[string]string{"cap": "1"}, fmt.Sprintf("Assemble wrote %d bytes that NewDemuxer refuses: %v", buf.Len(), derr), nil)
+			continue
+		}
+		if got, gerr := dm.GetChunk(mux.FourCCEXIF); gerr != nil || !bytes.Equal(got, blob) {
+			c.Violate(cs, "demux/metadata", map[string]string{"cap": "1"}, fmt.Sprintf("EXIF of %d bytes does not read back (%v)", n, gerr), nil)
+		}
+	}
 }
 
 func c14One(c *ev.Ctx, cs ev.Case, pool []c14Payload, lwOK bool) {
@@ -137,9 +179,18 @@ func c14One(c *ev.Ctx, cs ev.Case, pool []c14Payload, lwOK bool) {
 			f.Nil = r.Intn(2) == 0
 		} else {
 			f.Opts = mux.FrameOptions{
-				Duration:    pickI(r, 0, 1, 40, 100, 0xFFFFFF, 0xFFFFFF+1, -5, 70000),
-				OffsetX:     pickI(r, 0, 0, 1, 2, 3, 10, 17, -1, -2, -8),
-				OffsetY:     pickI(r, 0, 0, 1, 2, 5, 8, -2),
+				Duration: pickI(r, 0, 1, 40, 100, 0xFFFFFF, 0xFFFFFF+1, -5, 70000),
+				OffsetX:  pickI(r, 0, 0, 1, 2, 3, 10, 17, -1, -2, -8),
+				OffsetY:  pickI(r, 0, 0, 1, 2, 5, 8, -2),
+			}
+			if r.Intn(16) == 0 { // at and beyond what the 24-bit canvas / offset fields can hold
+				if r.Intn(2) == 0 {
+					f.Opts.OffsetX = pickI(r, 1<<24-2, 1<<24, 1<<25, 2*(1<<24-1), 16000000)
+				} else {
+					f.Opts.OffsetY = pickI(r, 1<<24-2, 1<<24, 1<<25, 2*(1<<24-1), 16000000)
+				}
+			}
+			f.Opts = mux.FrameOptions{Duration: f.Opts.Duration, OffsetX: f.Opts.OffsetX, OffsetY: f.Opts.OffsetY,
 				BlendMode:   mux.BlendMode(r.Intn(2)),
 				DisposeMode: mux.DisposeMode(r.Intn(2)),
 			}
@@ -226,13 +277,32 @@ func c14One(c *ev.Ctx, cs ev.Case, pool []c14Payload, lwOK bool) {
 			h.Ops = append(h.Ops, fmt.Sprintf("XMP(%d bytes nil=%v)", len(b), b == nil))
 		})
 	}
+	if r.Intn(8) == 0 { // AddChunk "adds an arbitrary metadata chunk": one the format has no name for
+		id := mux.ChunkID(uint32('z') | uint32('z')<<8 | uint32('z')<<16 | uint32(byte('a'+r.Intn(26)))<<24)
+		b := mkblob()
+		insert(func() {
+			err := m.AddChunk(id, b)
+			h.Ops = append(h.Ops, fmt.Sprintf("AddChunk(zzz?, %d bytes) -> %v", len(b), err))
+			if err == nil && len(b) > 0 {
+				h.UnknownID, h.Unknown = id, b
+			}
+		})
+	}
 	if r.Intn(2) == 0 {
 		v := pickI(r, 0, 1, 7, 65535, 65536, -3)
-		insert(func() { m.SetLoopCount(v); h.Loop, h.LoopSet = v, true; h.Ops = append(h.Ops, fmt.Sprintf("SetLoopCount(%d)", v)) })
+		insert(func() {
+			m.SetLoopCount(v)
+			h.Loop, h.LoopSet = v, true
+			h.Ops = append(h.Ops, fmt.Sprintf("SetLoopCount(%d)", v))
+		})
 	}
 	if r.Intn(2) == 0 {
 		v := r.Uint32()
-		insert(func() { m.SetBackgroundColor(v); h.BG, h.BGSet = v, true; h.Ops = append(h.Ops, fmt.Sprintf("SetBackgroundColor(%#x)", v)) })
+		insert(func() {
+			m.SetBackgroundColor(v)
+			h.BG, h.BGSet = v, true
+			h.Ops = append(h.Ops, fmt.Sprintf("SetBackgroundColor(%#x)", v))
+		})
 	}
 	// retroactive per-frame edits (applied after all frames exist or in between: index may be out of range)
 	nEdits := r.Intn(4)
@@ -303,11 +373,13 @@ func c14One(c *ev.Ctx, cs ev.Case, pool []c14Payload, lwOK bool) {
 		h.CanvasW, h.CanvasH = extW, extH
 	case "larger":
 		h.CanvasW, h.CanvasH = extW+1+r.Intn(9), extH+r.Intn(9)
-		if r.Intn(6) == 0 { // beyond 16 bits (24-bit canvas fields)
+		if r.Intn(12) == 0 { // area at / above 2^30 pixels: the muxer may refuse it, but if it writes a file every reader must read it alike
+			h.CanvasW, h.CanvasH = max(h.CanvasW, pickI(r, 32768, 40000, 1<<20)), max(h.CanvasH, pickI(r, 32768, 40000, 1024))
+		} else if r.Intn(6) == 0 { // beyond 16 bits (24-bit canvas fields)
 			if r.Intn(2) == 0 {
-				h.CanvasW = pickI(r, 65536, 65537, 70000, 100000)
+				h.CanvasW = max(h.CanvasW, pickI(r, 65536, 65537, 70000, 100000))
 			} else {
-				h.CanvasH = pickI(r, 65536, 65537, 70000, 100000)
+				h.CanvasH = max(h.CanvasH, pickI(r, 65536, 65537, 70000, 100000))
 			}
 		}
 	case "smaller":
@@ -324,11 +396,25 @@ func c14One(c *ev.Ctx, cs ev.Case, pool []c14Payload, lwOK bool) {
 	if h.CanvasMode != "absent" {
 		m.SetCanvasSize(h.CanvasW, h.CanvasH)
 		h.Ops = append(h.Ops, fmt.Sprintf("SetCanvasSize(%d,%d) [%s]", h.CanvasW, h.CanvasH, h.CanvasMode))
+		// documented: "Dimensions are clamped to [0, MaxCanvasSize] (24-bit max)"
+		cw, ch := min(h.CanvasW, 1<<24), min(h.CanvasH, 1<<24)
+		if (cw != h.CanvasW || ch != h.CanvasH) && (cw < extW || ch < extH) {
+			expectReject = true // the clamped canvas no longer holds the frames
+		}
+		h.CanvasW, h.CanvasH = cw, ch
 	}
 	wantW, wantH := extW, extH
 	if h.CanvasMode == "exact" || h.CanvasMode == "larger" {
 		wantW, wantH = h.CanvasW, h.CanvasH
 	}
+	// the VP8X canvas fields hold width-1 and height-1 in 24 bits, the ANMF offset fields hold offset/2 in 24 bits:
+	// a canvas beyond 2^24 cannot be written down and has to be refused
+	if wantW > 1<<24 || wantH > 1<<24 {
+		expectReject = true
+	}
+	// Canvases of 2^30 pixels and more: the package's own readers put their limits in different places, so the muxer
+	// may refuse them; if it writes a file, every view of that file must still agree (checked below as usual).
+	mayReject := uint64(wantW)*uint64(wantH) >= 1<<30
 	cs.Desc = fmt.Sprintf("%v", h.Ops)
 	// D11 (known finding): a non-animated output whose canvas (explicit, or implied by a frame offset)
 	// differs from the image size. Only its direct consequences carry this tag.
@@ -365,7 +451,7 @@ func c14One(c *ev.Ctx, cs ev.Case, pool []c14Payload, lwOK bool) {
 		cs.Desc = fmt.Sprintf("%v", h.Ops)
 	}
 	if aerr != nil {
-		if !expectReject {
+		if !expectReject && !mayReject {
 			c.Violate(cs, "valid-history-rejected", map[string]string{"canvas": h.CanvasMode}, aerr.Error(), rep())
 		}
 		if len(data) != 0 {
@@ -446,6 +532,11 @@ func c14One(c *ev.Ctx, cs ev.Case, pool []c14Payload, lwOK bool) {
 			if fi.DisposeMode != f.Opts.DisposeMode || wf.Dispose != (f.Opts.DisposeMode == mux.DisposeBackground) {
 				c.Violate(cs, "demux/dispose", nil, fmt.Sprintf("frame %d: dispose %v, expected %v", i, fi.DisposeMode, f.Opts.DisposeMode), rep())
 			}
+		}
+	}
+	if h.Unknown != nil {
+		if got, err := dm.GetChunk(h.UnknownID); err != nil || !bytes.Equal(got, h.Unknown) {
+			c.Violate(cs, "accepted-chunk-lost", nil, fmt.Sprintf("AddChunk accepted %d bytes under an id of its own and returned nil; the file does not carry them (GetChunk: %v)", len(h.Unknown), err), rep())
 		}
 	}
 	if animated {
